@@ -20,7 +20,23 @@ from . import common
 PROPERTY = 'C15'
 LEAN_TARGETS = ['CpProofs.C15', 'drv_c15']
 DRIVER = 'drv_c15'
-THEOREMS = []
+THEOREMS = [
+    'CpProofs.C15.C15_hit_genuine',
+    'CpProofs.C15.C15_hit_genuine_selecting',
+    'CpProofs.C15.C15_hit_genuine_full_false',
+    'CpProofs.C15.C15_generation_unique',
+    'CpProofs.C15.C15_fresh',
+    'CpProofs.C15.C15_age_header',
+    'CpProofs.C15.C15_no_store',
+    'CpProofs.C15.C15_no_store_step',
+    'CpProofs.C15.C15_invalidate',
+    'CpProofs.C15.C15_invalidating_request_not_cached',
+    'CpProofs.C15.C15_invalidate_methods',
+    'CpProofs.C15.C15_get_head_not_invalidating',
+    'CpProofs.C15.C15_pragma_no_cache',
+    'CpProofs.C15.C15_size_bounds',
+    'CpProofs.C15.C15_stored_objects',
+]
 LEVEL = 'proof'
 TECHNIQUE = ('Lean 4 proof: store invariant by induction over all request histories of a transcription of '
              'MemoryCache + caching.get/tee_output; model tied to the real tool by a differential run under a '
